@@ -1,7 +1,7 @@
 """C14 - queue family check (see lib/queuefam.py) + the Admin API / MCP request layer (lib/c14admin.py)
 + the MCP tools in Admin-proxy mode behind a fault-injecting forwarder (lib/c14proxy.py)
 + the allowed-state sets of the operator mutations tied to the Go sources by translation (lib/c02trans.py)."""
-from lib import c02trans, c14admin, c14proxy, queuefam
+from lib import c02trans, c14admin, c14proxy, queuefam, twostores
 
 
 def _extra(ctx, info, rng, fam, hs):
@@ -9,6 +9,7 @@ def _extra(ctx, info, rng, fam, hs):
     px = c14proxy.start(ctx, info)
     cov = c14admin.run(ctx, info, rng, fam, hs) or {}
     cov.update(c02trans.run_manage_only(ctx, info, rng, fam, hs) or {})
+    cov.update(twostores.run_filter(ctx, info))
     cov.update(c14proxy.finish(px) or {})
     return cov
 
